@@ -301,10 +301,14 @@ class Case:
     def source(self, control=False):
         ds = []
         if not control:
-            ds = ["derive_more::" + d for d in [self.derive] + self.companions]
+            ds = [self.derive] + self.companions
         src = render_item(self.item, ds, control)
         if self.std_derives:
-            src = "#[derive(%s)]\n" % ", ".join(self.std_derives) + src
+            src = "#[derive(%s)]\n" % ", ".join("::core::fmt::" + d for d in self.std_derives) + src
+        if ds:
+            # as in every example of the documentation (`use derive_more::Add;`): the re-export carries the derive macro
+            # and the trait of the same name
+            src = "use derive_more::{%s};\n" % ", ".join(ds) + src
         return src
 
     def expand_source(self):
@@ -567,7 +571,13 @@ def b_asref(c, ctx):
         c.families = ["FAsRef %s (AsBlanket %s)" % (tr, u_(t, g))]
     elif c.attr in ("field", "skip", "field-forward"):
         fk, _ = STRUCT_SHAPES[c.shape]
-        ts = pick_types(ctx, 2, "fwd" if c.attr == "field-forward" else "any", distinct=True)
+        if c.attr == "field":
+            # two impls of the same trait: the targets must not unify, so no bare parameter / wrapper of one
+            ts = ctx.rng.sample(["i32", "String", "Vec<u8>"], 2)
+            if has_lt_or_ty(g):
+                ts[1] = uni(g)
+        else:
+            ts = pick_types(ctx, 2, "fwd" if c.attr == "field-forward" else "any", distinct=True)
         if ts[0] == ts[1]:
             return None
         it = mk_struct(ctx, fk, ts)
@@ -724,14 +734,14 @@ def b_error(c, ctx):
                 return None
             it = mk_struct(ctx, "tuple", [uni(g)])
         else:
-            it = mk_struct(ctx, "tuple", [src_ty()])
+            it = mk_struct(ctx, "tuple", [tys[0] if tys else src_ty()])
         if c.attr == "not-source":
             it.fields[0].attrs.append("#[error(not(source))]")
     elif c.shape == "n1":
         if c.attr == "source-name":
             if lts or len(tys) > 1:
                 return None
-            it = mk_struct(ctx, "named", [src_ty()])
+            it = mk_struct(ctx, "named", [tys[0] if tys else src_ty()])
             it.fields[0].name = "source"
         else:
             it = mk_struct(ctx, "named", [rest_ty("")])
@@ -766,7 +776,14 @@ def b_from(c, ctx):
             it.attrs.append("#[from(i8, i16)]")
             c.families = ["FFrom (TUser RNo %s)" % u_(t, g) for t in ("i8", "i16")]
             return it
-        it = struct_of(ctx, c.shape, "any")
+        if c.attr == "forward" and STRUCT_SHAPES[c.shape][1] == 1:
+            # `impl<F> From<F> for S<T> where T: From<F>` overlaps with core's `impl<X> From<X> for X` when the only field
+            # is a bare parameter (coherence, nothing the derive could do): concrete or wrapped field types only
+            if ctx.unin:
+                return None
+            it = mk_struct(ctx, STRUCT_SHAPES[c.shape][0], [uni(g) if has_lt_or_ty(g) else ctx.rng.choice(["i32", "String"])])
+        else:
+            it = struct_of(ctx, c.shape, "any")
         if it is None:
             return None
         ts = [f.ty for f in it.fields]
@@ -979,19 +996,37 @@ pub mod sup {
     impl fmt::Display for E0 { fn fmt(&self, f: &mut fmt::Formatter<'_>) -> fmt::Result { f.write_str("E0") } }
     impl std::error::Error for E0 {}
 
+    macro_rules! fmt_impl { ([$($gen:tt)*] $t:ty, $tr:ident) => {
+        impl<$($gen)*> fmt::$tr for $t { fn fmt(&self, f: &mut fmt::Formatter<'_>) -> fmt::Result { f.write_str("P") } } } }
+    macro_rules! bin_impl { ([$($gen:tt)*] $t:ty, $mk:expr, $tr:ident $m:ident) => {
+        impl<$($gen)*> ops::$tr for $t { type Output = Self; fn $m(self, _: Self) -> Self { $mk } } } }
+    macro_rules! binassign_impl { ([$($gen:tt)*] $t:ty, $tr:ident $m:ident) => {
+        impl<$($gen)*> ops::$tr for $t { fn $m(&mut self, _: Self) {} } } }
+    macro_rules! scalar_impl { ([$($gen:tt)*] $t:ty, $mk:expr, $tr:ident $m:ident) => {
+        impl<__R, $($gen)*> ops::$tr<__R> for $t { type Output = Self; fn $m(self, _: __R) -> Self { $mk } } } }
+    macro_rules! scalarassign_impl { ([$($gen:tt)*] $t:ty, $tr:ident $m:ident) => {
+        impl<__R, $($gen)*> ops::$tr<__R> for $t { fn $m(&mut self, _: __R) {} } } }
     macro_rules! everything {
         ([$($gen:tt)*] $t:ty, $mk:expr) => {
             impl<$($gen)*> Clone for $t { fn clone(&self) -> Self { $mk } }
             impl<$($gen)*> Copy for $t {}
             impl<$($gen)*> fmt::Debug for $t { fn fmt(&self, f: &mut fmt::Formatter<'_>) -> fmt::Result { f.write_str("P") } }
-            everything!(@fmt [$($gen)*] $t, Display Binary Octal LowerHex UpperHex LowerExp UpperExp Pointer);
+            fmt_impl!([$($gen)*] $t, Display); fmt_impl!([$($gen)*] $t, Binary); fmt_impl!([$($gen)*] $t, Octal);
+            fmt_impl!([$($gen)*] $t, LowerHex); fmt_impl!([$($gen)*] $t, UpperHex); fmt_impl!([$($gen)*] $t, LowerExp);
+            fmt_impl!([$($gen)*] $t, UpperExp); fmt_impl!([$($gen)*] $t, Pointer);
             impl<$($gen)*> std::error::Error for $t {}
-            everything!(@bin [$($gen)*] $t, $mk, Add add, Sub sub, BitAnd bitand, BitOr bitor, BitXor bitxor);
-            everything!(@binassign [$($gen)*] $t, AddAssign add_assign, SubAssign sub_assign, BitAndAssign bitand_assign,
-                        BitOrAssign bitor_assign, BitXorAssign bitxor_assign);
-            everything!(@scalar [$($gen)*] $t, $mk, Mul mul, Div div, Rem rem, Shr shr, Shl shl);
-            everything!(@scalarassign [$($gen)*] $t, MulAssign mul_assign, DivAssign div_assign, RemAssign rem_assign,
-                        ShrAssign shr_assign, ShlAssign shl_assign);
+            bin_impl!([$($gen)*] $t, $mk, Add add); bin_impl!([$($gen)*] $t, $mk, Sub sub);
+            bin_impl!([$($gen)*] $t, $mk, BitAnd bitand); bin_impl!([$($gen)*] $t, $mk, BitOr bitor);
+            bin_impl!([$($gen)*] $t, $mk, BitXor bitxor);
+            binassign_impl!([$($gen)*] $t, AddAssign add_assign); binassign_impl!([$($gen)*] $t, SubAssign sub_assign);
+            binassign_impl!([$($gen)*] $t, BitAndAssign bitand_assign); binassign_impl!([$($gen)*] $t, BitOrAssign bitor_assign);
+            binassign_impl!([$($gen)*] $t, BitXorAssign bitxor_assign);
+            scalar_impl!([$($gen)*] $t, $mk, Mul mul); scalar_impl!([$($gen)*] $t, $mk, Div div);
+            scalar_impl!([$($gen)*] $t, $mk, Rem rem); scalar_impl!([$($gen)*] $t, $mk, Shr shr);
+            scalar_impl!([$($gen)*] $t, $mk, Shl shl);
+            scalarassign_impl!([$($gen)*] $t, MulAssign mul_assign); scalarassign_impl!([$($gen)*] $t, DivAssign div_assign);
+            scalarassign_impl!([$($gen)*] $t, RemAssign rem_assign); scalarassign_impl!([$($gen)*] $t, ShrAssign shr_assign);
+            scalarassign_impl!([$($gen)*] $t, ShlAssign shl_assign);
             impl<$($gen)*> ops::Not for $t { type Output = Self; fn not(self) -> Self { $mk } }
             impl<$($gen)*> ops::Neg for $t { type Output = Self; fn neg(self) -> Self { $mk } }
             impl<$($gen)*> iter::Sum for $t { fn sum<I: Iterator<Item = Self>>(mut i: I) -> Self { i.next().unwrap() } }
@@ -1002,25 +1037,10 @@ pub mod sup {
             impl<$($gen)*> IntoIterator for $t { type Item = (); type IntoIter = iter::Empty<()>; fn into_iter(self) -> Self::IntoIter { iter::empty() } }
             impl<'__x, $($gen)*> IntoIterator for &'__x $t { type Item = (); type IntoIter = iter::Empty<()>; fn into_iter(self) -> Self::IntoIter { iter::empty() } }
             impl<'__x, $($gen)*> IntoIterator for &'__x mut $t { type Item = (); type IntoIter = iter::Empty<()>; fn into_iter(self) -> Self::IntoIter { iter::empty() } }
-            impl<$($gen)*> ops::Deref for $t { type Target = Self; fn deref(&self) -> &Self { self } }
-            impl<$($gen)*> ops::DerefMut for $t { fn deref_mut(&mut self) -> &mut Self { self } }
+            impl<$($gen)*> ops::Deref for $t { type Target = (); fn deref(&self) -> &() { &() } }
+            impl<$($gen)*> ops::DerefMut for $t { fn deref_mut(&mut self) -> &mut () { unimplemented!() } }
             impl<__Y: ?Sized, $($gen)*> AsRef<__Y> for $t { fn as_ref(&self) -> &__Y { unimplemented!() } }
             impl<__Y: ?Sized, $($gen)*> AsMut<__Y> for $t { fn as_mut(&mut self) -> &mut __Y { unimplemented!() } }
-        };
-        (@fmt [$($gen:tt)*] $t:ty, $($tr:ident)*) => {
-            $( impl<$($gen)*> fmt::$tr for $t { fn fmt(&self, f: &mut fmt::Formatter<'_>) -> fmt::Result { f.write_str("P") } } )*
-        };
-        (@bin [$($gen:tt)*] $t:ty, $mk:expr, $($tr:ident $m:ident),*) => {
-            $( impl<$($gen)*> ops::$tr for $t { type Output = Self; fn $m(self, _: Self) -> Self { $mk } } )*
-        };
-        (@binassign [$($gen:tt)*] $t:ty, $($tr:ident $m:ident),*) => {
-            $( impl<$($gen)*> ops::$tr for $t { fn $m(&mut self, _: Self) {} } )*
-        };
-        (@scalar [$($gen:tt)*] $t:ty, $mk:expr, $($tr:ident $m:ident),*) => {
-            $( impl<__R, $($gen)*> ops::$tr<__R> for $t { type Output = Self; fn $m(self, _: __R) -> Self { $mk } } )*
-        };
-        (@scalarassign [$($gen:tt)*] $t:ty, $($tr:ident $m:ident),*) => {
-            $( impl<__R, $($gen)*> ops::$tr<__R> for $t { fn $m(&mut self, _: __R) {} } )*
         };
     }
     everything!([X: ?Sized] P<X>, P(PhantomData));
